@@ -1,5 +1,6 @@
 (* C12 driver: one case per line (rule / map / adapter syntax as in coq/C03/driver.ml)
    match <cfg> <rules> <adapter> <meth> <path> -> outcome of MapAdapter.match with defaults / alias canonicalisation
+   matchrt <cfg> <rules> <adapter> <meth> <path> <idx=template|..> -> the same with Rule.redirect_to string templates
    tourl <conv> <value>                              -> U text | VALUEERROR | UNSUPPORTED
    rt <conv> <value>                                 -> to_url, unquote, in_lang, to_python in one line
    unq <text>                                        -> unquoted text
@@ -53,4 +54,8 @@ let show_outcome = function
 let () = iter_lines (fun line ->
   match fields line with
   | ["match"; cfg; rules; a; meth; path] -> show_outcome (router_match (rmap cfg rules) (adapter a) (str path) (str meth))
+  | ["matchrt"; cfg; rules; a; meth; path; rt] ->
+      (* rt: idx=template|idx=template : Rule.redirect_to string templates by rule index *)
+      let tbl = lst '|' (fun kv -> match sp '=' kv with [i; t] -> (int_of_string i, str t) | _ -> failwith "rt") rt in
+      show_outcome (router_match_rt (fun i -> List.assoc_opt (int_of_n i) tbl) (rmap cfg rules) (adapter a) (str path) (str meth))
   | _ -> "bad-command")
